@@ -2116,9 +2116,28 @@ def oracle_C02(case, hlines):
             if 'Panic(caller)' not in obs_of(line) and not obs_of(line).startswith('[Panic(caller)'):
                 out.append(dict(kind='oracle', op_index=i, op=o[1], observed=obs_of(line)[:200], detail='an injected panic in caller code did not propagate as that panic'))
             if o[1] == 'resize':
+                # the fault model of Proofs/Faults.v (resize_fixed): growing -> exactly as before the call;
+                # shrinking with a panicking Drop -> the new shape over the kept prefix
                 a, b = parse_slot(prev, o[2][0]), parse_slot(line, o[2][0])
-                if a and b and (a[1], a[2]) != (b[1], b[2]) and not (b[1] * b[2] == len(b[3])):
-                    out.append(dict(kind='oracle', op_index=i, op='resize', observed=line.split(' ;; ')[1][:200], detail='shape and element count disagree after a panicking Default'))
+                r, cl = o[2][1], o[2][2]
+                if a and b:
+                    if r * cl > len(a[3]):
+                        want = a
+                    else:
+                        want = (a[0], r, cl, a[3][:r * cl])
+                    if b != want:
+                        out.append(dict(kind='oracle', op_index=i, op='resize', observed=line.split(' ;; ')[1][:200], expected=str(want)[:200],
+                                        detail='state after a panic inside resize differs from the proved fault model'))
+            if o[1] in ('apply', 'sc_assign', 'ew_assign', 'overwrite', 'clear') or (o[1] == 'ew_named' and o[2][1] == 2):
+                k = o[2][0] if o[1] != 'ew_named' else o[2][3]
+                a, b = parse_slot(prev, k), parse_slot(line, k)
+                if a and b:
+                    ok = (b[1] * b[2] == len(b[3])) and (o[1] == 'clear' or (b[:3] == a[:3]))
+                    if o[1] == 'clear':
+                        ok = ok and (b[1], b[2], len(b[3])) == (0, 0, 0)
+                    if not ok:
+                        out.append(dict(kind='oracle', op_index=i, op=o[1], observed=line.split(' ;; ')[1][:200],
+                                        detail='state after a panic inside an in-place operation differs from the proved fault model (shape/length must be unchanged; clear: 0x0)'))
         prev = line
     return out
 
